@@ -45,6 +45,7 @@ public:
 private:
   double f1, f2, x0, x1, x2, x3;
   double xinf_, xsup_;
+  double xstart_, fstart_;
   bool isInitialIntervalSet_;
 
 public:
@@ -77,6 +78,12 @@ public:
   void doInit(const ParameterList& params) override;
 
   double doStep() override;
+
+  /**
+   * @brief Run the search, then report the better of the two interior points
+   * (the last evaluated point is not necessarily the best one).
+   */
+  double optimize() override;
 
   /**
    * @name Specific method
